@@ -93,7 +93,7 @@ func plainEnds(s string) bool {
 
 func runC15(ctx *Ctx) error {
 	r, res := ctx.Rng, ctx.Res
-	res.Rule = "on loopback TCP: (A) DialContext against this package's Listen/Accept for callsigns and passwords from three families (callsign-like, printable ASCII incl. inner spaces, arbitrary bytes without CR), both sides writing a payload immediately after login; (B) the library client against a scripted server that splits prompts at random places, sends banner and blank lines, garbage lines without the keywords, and coalesces the payload with the password prompt or sends everything in one write; (C) the library server against a scripted client that sends callsign, password and payload in one write or in random pieces; every observation compared with the model (what each side sent, what was left for Read) and judged by the property (RemoteCall = the dialler's callsign, payloads byte-exact and complete); (D) DialContext / DialTimeout / DialURL(dial_timeout) / DialURLContext / transport.DialURLContext through the registry with a configured time-out and a later context deadline against servers that stay silent, send half a prompt, send garbage lines periodically, close at once, close after the first prompt, or prompt and then never read the (24 MiB) answer: the call must return an error no later than its deadline (+1.5 s tolerance for scheduling on a loaded machine), a context cancelled without deadline ends the dial as well, a dial begun while another one is still in progress honours its own deadline, and so does a time-out or deadline that has already run out when the dial starts (0 and -1 s). Non-trivial: scenario with a payload of at least one byte in each direction; distinct by scenario parameters."
+	res.Rule = "on loopback TCP: (A) DialContext (and, for a sixth of them, the same dial as a parsed telnet URL through the transport registry) against this package's Listen/Accept for callsigns and passwords from three families (callsign-like, printable ASCII incl. inner spaces, arbitrary bytes without CR), both sides writing a payload immediately after login; (B) the library client against a scripted server that splits prompts at random places, sends banner and blank lines, garbage lines without the keywords, and coalesces the payload with the password prompt or sends everything in one write; (C) the library server against a scripted client that sends callsign, password and payload in one write or in random pieces; every observation compared with the model (what each side sent, what was left for Read) and judged by the property (RemoteCall = the dialler's callsign, payloads byte-exact and complete); (D) DialContext / DialTimeout / DialURL(dial_timeout) / DialURLContext / transport.DialURLContext through the registry with a configured time-out and a later context deadline against servers that stay silent, send half a prompt, send garbage lines periodically, close at once, close after the first prompt, or prompt and then never read the (24 MiB) answer: the call must return an error no later than its deadline (+1.5 s tolerance for scheduling on a loaded machine), a context cancelled without deadline ends the dial as well, a dial begun while another one is still in progress honours its own deadline, and so does a time-out or deadline that has already run out when the dial starts (0 and -1 s). Non-trivial: scenario with a payload of at least one byte in each direction; distinct by scenario parameters."
 	if !ardLoopbackOK() {
 		res.Fail(Failure{Kind: "broken", Site: "environment", Detail: "loopback TCP is not available: the telnet package cannot be exercised"})
 		return nil
@@ -125,7 +125,21 @@ func runC15(ctx *Ctx) error {
 		ch := make(chan acc, 1)
 		go func() { c, err := ln.Accept(); ch <- acc{c, err} }()
 		dctx, cancel := context.WithTimeout(context.Background(), 3*time.Second)
-		cc, err := telnet.DialContext(dctx, ln.Addr().String(), call, pass)
+		var cc net.Conn
+		if i%6 == 3 {
+			// the same dial written as a connect URL and made through the transport registry: the
+			// callsign (in the letter case the application wrote it) and the password are the URL's user info
+			call, pass = []string{"la5nta-1", "La1b", "n0call", "LA3F-12"}[(i/6)%4], "pw"+r.StringFrom(alnum, 1+r.Intn(8))
+			desc = fmt.Sprintf("A (through a parsed telnet URL) call=%q pass=%q payloads=%d/%d", call, pass, len(pc), len(ps))
+			u, perr := transport.ParseURL(fmt.Sprintf("telnet://%s:%s@%s/wl2k", call, pass, ln.Addr().String()))
+			if perr != nil {
+				err = perr
+			} else {
+				cc, err = transport.DialURLContext(dctx, u)
+			}
+		} else {
+			cc, err = telnet.DialContext(dctx, ln.Addr().String(), call, pass)
+		}
 		cancel()
 		if err != nil {
 			res.Fail(Failure{Kind: "oracle", Site: "login", Case: desc, Impl: "DialContext: " + err.Error()})
